@@ -16,6 +16,9 @@ structure CS where
 inductive CEv
   /-- `Reader.SetOffset(o)` (also the lazy start of the first fetcher at the configured offset) -/
   | setOffset (o : Int)
+  /-- `Reader.SetOffset(LastOffset)` (or the start of a Reader configured with it).  `l` is the log end the broker will
+  report to this fetcher at its first successful `initialize` (see `CEv.okAt`): that is where it starts. -/
+  | setOffsetLast (l : Int)
   /-- a blocking call of fetcher `t`'s loop returns: whatever the world does -/
   | env (t : Nat) (x : Env)
   /-- `Reader.FetchMessage` -/
@@ -40,6 +43,10 @@ def cstep (cfg : RCfg) (items : List Item) (c : CS) : CEv → Option (CS × Opti
     match fstep (allRecords items) c.fs (.setOffset o) with
     | none => none
     | some (fs', m) => some ({ fs := fs', loops := (c.fs.version + 1, { offset := o }) :: c.loops }, m)
+  | .setOffsetLast l =>
+    match fstep (allRecords items) c.fs (.setOffset l) with
+    | none => none
+    | some (fs', m) => some ({ fs := fs', loops := (c.fs.version + 1, { offset := -1 }) :: c.loops }, m)
   | .env t x =>
     match lookupLoop t c.loops with
     | none => none
@@ -64,11 +71,24 @@ def crun (cfg : RCfg) (items : List Item) : CS → List CEv → Option (CS × Li
 
 def CEv.ok (items : List Item) : CEv → Prop
   | .setOffset o => -2 ≤ o ∧ o ≠ -1          -- an absolute offset or FirstOffset
+  | .setOffsetLast _ => True
   | .env _ x => x.ok items
   | .fetch => True
 
+/-- the meaning of `l` in `setOffsetLast l`: while a fetcher started at LastOffset has not yet connected, a successful
+`initialize` of it reports `l` as the last offset -/
+def CEv.okAt (c : CS) : CEv → Prop
+  | .env t (.initOk _ l) =>
+    ∀ s, lookupLoop t c.loops = some s → s.start = none → s.offset = -1 → ∀ g ∈ c.fs.fetchers, g.tag = t → l = g.start
+  | _ => True
+
+def OkRun (cfg : RCfg) (items : List Item) : CS → List CEv → Prop
+  | _, [] => True
+  | c, e :: es => e.ok items ∧ e.okAt c ∧ ∀ c' m, cstep cfg items c e = some (c', m) → OkRun cfg items c' es
+
 def CEv.notSet : CEv → Prop
   | .setOffset _ => False
+  | .setOffsetLast _ => False
   | _ => True
 
 
